@@ -1243,6 +1243,8 @@ def exec_c16(plan, role="main", order=None):
                 text = S.text(op["text"])
             except BaseException as e:
                 raise
+            # which good scratch modules are loaded right now (ground truth: sys.modules)
+            S.rel_loaded_before = {e4["pulses"]["mod"] for e4 in plan2["texts"] if e4.get("pulses") and e4["pulses"]["mod"] in sys.modules}
             GS.VARIANT = op.get("variant", 0)
             fn = c16_callable(S, op, j)
             budget = budget_parse(text) + (5_000_000 if op.get("via") in ("run", "run_string", "run_file") else 0)
@@ -1295,11 +1297,11 @@ def exec_c16(plan, role="main", order=None):
             if mods:
                 # had a successful relative import of that module already happened in this
                 # lifetime?  (only then may the absolute import legitimately see it)
-                flag = bool(set(mods) & S.rel_loaded)
+                flag = bool(set(mods) & S.rel_loaded_before)
                 S.twin_waived = dict(getattr(S, "twin_waived", {}))
                 S.twin_waived[str(j)] = flag
                 S.probe("absolute_import_of_relatively_imported_module")
-            if o["kind"] == "ok":
+            if o["kind"] == "ok" and op.get("via") not in ("header", "header_file"):
                 for e3 in [plan2["texts"][op["text"]]]:
                     pm3 = e3.get("pulses")
                     if pm3 and pm3["relative"] and pm3["kind"] in ("good", "package") and ("from ." + pm3["mod"]) in text:
